@@ -17,6 +17,7 @@ DRIVER = "drv_diff"
 THEOREMS = [
     "C07.detect_partial",
     "C07.detect_counterexample",
+    "C07.detect_partial_deferring",
     "C07.type_family_detected",
     "C07.type_family_detected_groups",
     "C07.default_change_detected",
@@ -51,6 +52,7 @@ RULE = (
     "dialect stream: {default, sqlite, postgresql, mysql, mssql, oracle} x (dialect's reflected type classes per family) x (generic metadata "
     "types per family: string/integer/float-numeric/boolean/datetime/binary/json, random arguments) through the real impl.compare_type, no database; "
     "non-trivial = cross-family pair no synonym group joins, distinct by (dialect, type texts).  Live stream: "
+    "settings: compare_type / compare_server_default = True (50%), callables that always answer None (25%), callables answering False on ~20% of the columns and, for the changed column, True or suppressing the change (25%); "
     "random base schema (as in C06) x one candidate of each of the 15 mutation kinds applicable to it (random object); compare_type and "
     "compare_server_default on; 20% of bases leave the proved class. Non-trivial = every evaluated (base, mutation); distinct by (kind, op list)"
 )
@@ -82,7 +84,7 @@ def run(ctx, n_bases=None, rng_name="main", max_seconds=None):
         for desc, b in G.candidate_mutations(rng, a, odd):
             if desc["m"] in ("changeFKOptions", "changeTypeArgs", "swapNamedKind"):
                 continue  # edits for C06 pairs (two ops, or not a family change): not catalogue mutations
-            K.run_mutation(ctx, a, desc, b, pending)
+            K.run_mutation(ctx, a, desc, b, pending, rng)
         if i < 2:
             ctx.sample({"a": a})
         if len(pending) > 400:
